@@ -298,3 +298,43 @@ func sortedTags(ts []tagCond) []tagCond {
 	})
 	return out
 }
+
+// setupArgs builds abstract arguments for fn: stream readers (directly or as
+// a field of a pointed-to struct) become a ReaderVal over stream s; everything
+// else is symbolic.
+func setupArgs(e *Engine, st *State, fn *ssa.Function, s *Stream) []Val {
+	var args []Val
+	for _, prm := range fn.Params {
+		t := prm.Type()
+		if types.IsInterface(t) && isReaderType(t) {
+			args = append(args, &ReaderVal{S: s})
+			continue
+		}
+		if pt, ok := t.(*types.Pointer); ok {
+			if stt, ok := pt.Elem().Underlying().(*types.Struct); ok {
+				hasReader := false
+				for i := 0; i < stt.NumFields(); i++ {
+					if types.IsInterface(stt.Field(i).Type()) && isReaderType(stt.Field(i).Type()) {
+						hasReader = true
+					}
+				}
+				if hasReader {
+					c := e.newCell(prm.Name(), pt.Elem())
+					a := &Agg{Type: pt.Elem(), Elems: make([]Val, stt.NumFields())}
+					for i := 0; i < stt.NumFields(); i++ {
+						if types.IsInterface(stt.Field(i).Type()) && isReaderType(stt.Field(i).Type()) {
+							a.Elems[i] = &ReaderVal{S: s}
+						} else {
+							a.Elems[i] = e.zeroVal(stt.Field(i).Type())
+						}
+					}
+					st.mem[c] = a
+					args = append(args, &Ptr{Cell: c})
+					continue
+				}
+			}
+		}
+		args = append(args, e.SymVal(prm.Name(), t))
+	}
+	return args
+}
